@@ -895,3 +895,34 @@ Definition handle_trace (decode_ok endpoint_ok : bool) : list stage :=
    call, so a history of calls is just the calls one by one *)
 Definition run_history (calls : list (mdata * list (str * list str))) : list mdata :=
   map (fun c => md_write (fst c) (snd c)) calls.
+
+(* ------------------------------------------- the streaming kind of a method *)
+(* dsl.StreamingPayload / dsl.StreamingResult update MethodExpr.Stream as they are met,
+   in whatever order the Method DSL declares its parts (Payload and Result leave it) *)
+Inductive decl := DPayload | DStreamingPayload | DResult | DStreamingResult.
+
+Definition decl_step (kd : skind) (d : decl) : skind :=
+  match d with
+  | DStreamingPayload => match kd with ServerStream => Bidi | _ => ClientStream end
+  | DStreamingResult => match kd with ClientStream => Bidi | _ => ServerStream end
+  | _ => kd
+  end.
+
+Definition kind_of_decls (ds : list decl) : skind := fold_left decl_step ds Unary.
+
+Definition designed_kind (streams_payload streams_result : bool) : skind :=
+  if streams_payload then (if streams_result then Bidi else ClientStream)
+  else (if streams_result then ServerStream else Unary).
+
+Definition decl_eqb (a b : decl) : bool :=
+  match a, b with
+  | DPayload, DPayload | DStreamingPayload, DStreamingPayload | DResult, DResult | DStreamingResult, DStreamingResult => true
+  | _, _ => false
+  end.
+Definition has_decl (d : decl) (ds : list decl) : bool := existsb (decl_eqb d) ds.
+
+(* the attributes of the payload that travel as request metadata: the ones listed in
+   Metadata(...), the credentials of the method's scheme, and with a streaming
+   payload every attribute of the payload *)
+Definition request_metadata_names (attrs explicit creds : list str) (streaming_payload : bool) : list str :=
+  if streaming_payload then attrs else explicit ++ filter (fun c => negb (mem c explicit)) creds.
